@@ -227,6 +227,8 @@ package controller
 //@   modifies Jlen, Jkind, Jname, Jnode, Jok, Jesc, clock, nTaintOK, nUntaintOK, getSeen, nGet, nKFail, nodeGroup.taintTracker, elems(nodeGroup.taintTracker)
 //@   ensures len(res) <= n && Jlen >= old(Jlen) && jprefix(old(Jlen)) && clock >= old(clock)
 //@   ensures [C03,C06] nUntaintOK == old(nUntaintOK) && old(nTaintOK) <= nTaintOK && nTaintOK - old(nTaintOK) <= len(res)
+// C03/C06 slot accounting: outside dry mode every node fetched for tainting uses up one of the n slots unless its API call failed
+//@   ensures [C03,C06] !dry(c, nodeGroup) ==> len(res) == (nGet - old(nGet)) - (nKFail - old(nKFail))
 //@   ensures [C11] dry(c, nodeGroup) ==> Jlen == old(Jlen)
 //@   ensures forall k :: old(Jlen) <= k && k < Jlen ==> Jkind[k] == K_UPDATE
 //@   ensures [C01,C09,C10,C12] forall k :: old(Jlen) <= k && k < Jlen ==> LNby[Jname[k]] != nil && clsU(LNby[Jname[k]])
@@ -249,6 +251,7 @@ package controller
 //@   invariant (base(nodeGroup.taintTracker) == entry(base(nodeGroup.taintTracker)) && off(nodeGroup.taintTracker) == entry(off(nodeGroup.taintTracker)) && cap(nodeGroup.taintTracker) == entry(cap(nodeGroup.taintTracker))) || birth(base(nodeGroup.taintTracker)) >= entry(now)
 //@   invariant len(taintedIndices) <= n && Jlen >= old(Jlen) && jprefix(old(Jlen)) && clock >= old(clock)
 //@   invariant [C03,C06] nUntaintOK == old(nUntaintOK) && old(nTaintOK) <= nTaintOK && nTaintOK - old(nTaintOK) <= len(taintedIndices)
+//@   invariant [C03,C06] !dry(c, nodeGroup) ==> len(taintedIndices) == (nGet - old(nGet)) - (nKFail - old(nKFail))
 //@   invariant dry(c, nodeGroup) ==> Jlen == old(Jlen)
 //@   invariant forall k :: old(Jlen) <= k && k < Jlen ==> Jkind[k] == K_UPDATE
 //@   invariant [C01,C09,C10,C12] forall k :: old(Jlen) <= k && k < Jlen ==> LNby[Jname[k]] != nil && clsU(LNby[Jname[k]])
@@ -267,11 +270,11 @@ package controller
 //@   ensures [C11] dry(c, nodeGroup) ==> Jlen == old(Jlen)
 //@   ensures forall k :: old(Jlen) <= k && k < Jlen ==> Jkind[k] == K_UPDATE
 //@   ensures [C01,C09,C10,C12] forall k :: old(Jlen) <= k && k < Jlen ==> LNby[Jname[k]] != nil && clsT(LNby[Jname[k]])
-//@   ensures [C07] !dry(c, nodeGroup) && len(res) < n ==> (forall i :: 0 <= i && i < len(nodes) && k8s.hasEsc(nodes[i]) ==> getSeen[nodes[i].Name])
+//@   ensures [C07,C10] !dry(c, nodeGroup) && len(res) < n ==> (forall i :: 0 <= i && i < len(nodes) && k8s.hasEsc(nodes[i]) ==> getSeen[nodes[i].Name])
 // C07 newest first: no tainted node left unattempted is strictly newer than a node an untaint write was sent for
 //@   ensures [C07] !dry(c, nodeGroup) ==> (forall k, q {Jname[k], elemref(nodes, q)} :: old(Jlen) <= k && k < Jlen && 0 <= q && q < len(nodes) && k8s.hasEsc(nodes[q]) && !getSeen[nodes[q].Name] ==> !older(LNby[Jname[k]], nodes[q]))
 // C05/C07: outside dry mode the count reported is exactly the number of untaint attempts that did not fail
-//@   ensures [C05,C07] !dry(c, nodeGroup) ==> len(res) == (nGet - old(nGet)) - (nKFail - old(nKFail))
+//@   ensures [C03,C05,C07] !dry(c, nodeGroup) ==> len(res) == (nGet - old(nGet)) - (nKFail - old(nKFail))
 //@ loop #0
 //@   modifies elems(sorted)
 //@   invariant len(sorted) == #i && base(sorted) == entry(base(sorted)) && cap(sorted) == len(nodes) && off(sorted) == 0
@@ -282,15 +285,15 @@ package controller
 //@   invariant len(untaintedIndices) <= n && Jlen >= old(Jlen) && jprefix(old(Jlen))
 //@   invariant [C03,C06,C07] nTaintOK == old(nTaintOK) && old(nUntaintOK) <= nUntaintOK && nUntaintOK - old(nUntaintOK) <= len(untaintedIndices)
 //@   invariant dry(c, nodeGroup) ==> Jlen == old(Jlen)
-//@   invariant [C05,C07] !dry(c, nodeGroup) ==> len(untaintedIndices) == (nGet - old(nGet)) - (nKFail - old(nKFail))
+//@   invariant [C03,C05,C07] !dry(c, nodeGroup) ==> len(untaintedIndices) == (nGet - old(nGet)) - (nKFail - old(nKFail))
 //@   invariant forall k :: old(Jlen) <= k && k < Jlen ==> Jkind[k] == K_UPDATE
 //@   invariant [C01,C09,C10,C12] forall k :: old(Jlen) <= k && k < Jlen ==> LNby[Jname[k]] != nil && clsT(LNby[Jname[k]])
 //@   invariant forall p :: 0 <= p && p < len(sorted) ==> sorted[p].node != nil && 0 <= sorted[p].index && sorted[p].index < len(nodes) && sorted[p].node == nodes[sorted[p].index]
-//@   invariant [C07] !dry(c, nodeGroup) ==> (forall p :: 0 <= p && p < #i && k8s.hasEsc(sorted[p].node) ==> getSeen[sorted[p].node.Name])
-//@   invariant [C07] forall s string :: old(getSeen)[s] ==> getSeen[s]
+//@   invariant [C07,C10] !dry(c, nodeGroup) ==> (forall p :: 0 <= p && p < #i && k8s.hasEsc(sorted[p].node) ==> getSeen[sorted[p].node.Name])
+//@   invariant [C07,C10] forall s string :: old(getSeen)[s] ==> getSeen[s]
 //@   invariant [C07] forall i, j :: 0 <= i && i < j && j < len(sorted) ==> !older(sorted[i].node, sorted[j].node)
 //@   invariant [C07] !dry(c, nodeGroup) ==> (forall k, p {Jname[k], elemref(sorted, p)} :: old(Jlen) <= k && k < Jlen && #i <= p && p < len(sorted) ==> !older(LNby[Jname[k]], sorted[p].node))
-//@   invariant [C07] forall q {elemref(nodes, q)} :: 0 <= q && q < len(nodes) ==> 0 <= spinv(base(sorted), q) && spinv(base(sorted), q) < len(sorted) && sorted[spinv(base(sorted), q)].index == q
+//@   invariant [C07,C10] forall q {elemref(nodes, q)} :: 0 <= q && q < len(nodes) ==> 0 <= spinv(base(sorted), q) && spinv(base(sorted), q) < len(sorted) && sorted[spinv(base(sorted), q)].index == q
 //@   invariant base(nodeGroup.taintTracker) == entry(base(nodeGroup.taintTracker)) && off(nodeGroup.taintTracker) == entry(off(nodeGroup.taintTracker)) && cap(nodeGroup.taintTracker) == entry(cap(nodeGroup.taintTracker))
 
 //@ spec nodesOK(s []*v1.Node) bool = forall i :: 0 <= i && i < len(s) ==> s[i] != nil
@@ -306,7 +309,7 @@ package controller
 //@   ensures forall k :: old(Jlen) <= k && k < Jlen ==> Jkind[k] == K_UPDATE
 //@   ensures [C01,C09,C10,C12] forall k :: old(Jlen) <= k && k < Jlen ==> LNby[Jname[k]] != nil && clsT(LNby[Jname[k]])
 //@   ensures [C07] !dry(c, opts.nodeGroup) && n < opts.nodesDelta ==> (forall i :: 0 <= i && i < len(opts.taintedNodes) && k8s.hasEsc(opts.taintedNodes[i]) ==> getSeen[opts.taintedNodes[i].Name])
-//@   ensures [C05,C07] !dry(c, opts.nodeGroup) ==> n == (nGet - old(nGet)) - (nKFail - old(nKFail))
+//@   ensures [C03,C05,C07] !dry(c, opts.nodeGroup) ==> n == (nGet - old(nGet)) - (nKFail - old(nKFail))
 //@   ensures [C07] !dry(c, opts.nodeGroup) ==> (forall k, q {Jname[k], elemref(opts.taintedNodes, q)} :: old(Jlen) <= k && k < Jlen && 0 <= q && q < len(opts.taintedNodes) && k8s.hasEsc(opts.taintedNodes[q]) && !getSeen[opts.taintedNodes[q].Name] ==> !older(LNby[Jname[k]], opts.taintedNodes[q]))
 
 // ScaleUp. C07: untaint first; at most one cloud request, as the last event, for exactly the
@@ -325,6 +328,8 @@ package controller
 //@   ensures [C07] Jlen > old(Jlen) && Jkind[Jlen - 1] == C_INCREASE ==> (exists u :: 0 <= u && u < opts.nodesDelta && nUntaintOK - old(nUntaintOK) <= u && Jnum[Jlen - 1] == min(opts.nodesDelta - u, min(opts.nodeGroup.Opts.MaxNodes, cmax(gid(opts.nodeGroup))) - tgt(gid(opts.nodeGroup))))
 // C07 newest first: every untaint write goes to a node that is not older than any tainted node left unattempted
 //@   ensures [C07] !dry(c, opts.nodeGroup) ==> (forall k, q {Jname[k], elemref(opts.taintedNodes, q)} :: old(Jlen) <= k && k < Jlen && Jkind[k] == K_UPDATE && 0 <= q && q < len(opts.taintedNodes) && k8s.hasEsc(opts.taintedNodes[q]) && !getSeen[opts.taintedNodes[q].Name] ==> !older(LNby[Jname[k]], opts.taintedNodes[q]))
+// C03/C07: "requesting the rest": outside dry mode a scale-up that untainted fewer nodes than asked either returns an error or has asked the cloud
+//@   ensures [C03,C07] !dry(c, opts.nodeGroup) && err == nil && (nGet - old(nGet)) - (nKFail - old(nKFail)) < opts.nodesDelta ==> Jlen > old(Jlen) && Jkind[Jlen - 1] == C_INCREASE
 // C05/C07: the amount requested from the cloud is what is left of the delta after the untaints that did not fail (clamped to the headroom)
 //@   ensures [C05,C07] Jlen > old(Jlen) && Jkind[Jlen - 1] == C_INCREASE && !dry(c, opts.nodeGroup) ==> Jnum[Jlen - 1] == min(opts.nodesDelta - ((nGet - old(nGet)) - (nKFail - old(nKFail))), min(opts.nodeGroup.Opts.MaxNodes, cmax(gid(opts.nodeGroup))) - tgt(gid(opts.nodeGroup)))
 //@   ensures [C07] Jlen > old(Jlen) && Jkind[Jlen - 1] == C_INCREASE && !dry(c, opts.nodeGroup) ==> (forall i :: 0 <= i && i < len(opts.taintedNodes) && k8s.hasEsc(opts.taintedNodes[i]) ==> getSeen[opts.taintedNodes[i].Name])
@@ -549,9 +554,13 @@ package controller
 
 // ---------------------------------------------------------------- controller.go: scan helpers
 
+// lastMaxAge / lastStarve: what the two exception triggers answered when last asked (ghost, set at return)
+//@ ghost lastMaxAge bool
+//@ ghost lastStarve bool
 //@ func (*Controller).scaleOnMaxNodeAge(c, nodeGroup, untaintedNodes, taintedNodes) (r)
 //@   requires nodeGroup != nil && durCacheOK(optsOf(nodeGroup)) && nodesOK(untaintedNodes)
 //@   modifies clock, nodeGroup.Opts.maxNodeAgeDuration
+//@   sets lastMaxAge = r
 //@   ensures clock >= old(clock) && durCacheOK(optsOf(nodeGroup))
 //@   ensures r ==> len(untaintedNodes) == nodeGroup.Opts.MinNodes && len(untaintedNodes) > 0 && len(taintedNodes) == 0 && durOf(nodeGroup.Opts.MaxNodeAge) > 0
 //@ loop #0
@@ -573,7 +582,7 @@ package controller
 //@ func (*Controller).scaleNodeGroup(c, nodegroup, nodeGroup) (delta, err)
 //@   requires c != nil && c.Client != nil && c.cloudProvider != nil && groupInv(nodeGroup)
 //@   requires [C05,C06] 0 <= nodeGroup.Opts.SlowNodeRemovalRate && nodeGroup.Opts.SlowNodeRemovalRate <= nodeGroup.Opts.FastNodeRemovalRate && 0 < nodeGroup.Opts.TaintLowerCapacityThresholdPercent && nodeGroup.Opts.TaintLowerCapacityThresholdPercent < nodeGroup.Opts.TaintUpperCapacityThresholdPercent && nodeGroup.Opts.TaintUpperCapacityThresholdPercent < nodeGroup.Opts.ScaleUpThresholdPercent
-//@   modifies Jlen, Jkind, Jname, Jnode, Jok, Jesc, Jnum, Jerr, TGT, clock, nTaintOK, nUntaintOK, getSeen, nGet, nKFail, LNb, LNo, LNl, LNby, LNok, LPb, LPo, LPl, nScans
+//@   modifies Jlen, Jkind, Jname, Jnode, Jok, Jesc, Jnum, Jerr, TGT, clock, nTaintOK, nUntaintOK, getSeen, nGet, nKFail, LNb, LNo, LNl, LNby, LNok, LPb, LPo, LPl, nScans, lastMaxAge, lastStarve
 //@   ensures nScans == old(nScans) + 1
 //@   ensures forall g2 *NodeGroupState :: allocated(g2) && g2 != nodeGroup && old(groupInv(g2)) ==> groupInv(g2)
 //@   ensures [C19] forall k :: old(Jlen) <= k && k < Jlen && Jkind[k] == C_DELNODE && isNotInGroup(Jerr[k]) ==> isNotInGroup(err)
@@ -601,6 +610,9 @@ package controller
 // C13: what is divided is the request total over the group's pods and the allocatable total over the untainted nodes
 //@   assert @calcPercentUsage#1 [C13] milli(#arg0) == k8s.sumPodCPU(pods, len(pods)) && milli(#arg1) == 1000 * k8s.sumPodMem(pods, len(pods))
 //@   assert @calcPercentUsage#1 [C13] milli(#arg2) == k8s.sumAllocCPU(untaintedNodes, len(untaintedNodes)) && milli(#arg3) == 1000 * k8s.sumAllocMem(untaintedNodes, len(untaintedNodes)) && #arg4 == len(untaintedNodes)
+// C06: neither a taint pass nor the do-nothing branch is taken in a scan in which scale_on_starve or max_node_age fired
+//@   assert @ScaleDown#1 [C06] !lastMaxAge && !lastStarve
+//@   assert @TryRemoveTaintedNodes#1 [C06] !lastMaxAge && !lastStarve
 //@   assert @ScaleDown#1 [C06,C13] maxPercent == max(cpuPercent, memPercent)
 //@   assert @ScaleDown#1 [C06] scaleOptions.nodesDelta == 0 - nodesDelta
 //@   assert @ScaleDown#1 [C06] nodesDelta < 0
@@ -630,7 +642,7 @@ package controller
 //@ func (*Controller).RunOnce(c) (err)
 //@   requires ctlInv(c)
 //@   requires [C03,C04] forall i, j :: 0 <= i && i < j && j < len(c.Opts.NodeGroups) ==> c.nodeGroups[c.Opts.NodeGroups[i].Name] != c.nodeGroups[c.Opts.NodeGroups[j].Name]
-//@   modifies Jlen, Jkind, Jname, Jnode, Jok, Jesc, Jnum, Jerr, TGT, clock, nTaintOK, nUntaintOK, getSeen, nGet, nKFail, LNb, LNo, LNl, LNby, LNok, LPb, LPo, LPl, nScans, nBuildFail, c.cloudProvider
+//@   modifies Jlen, Jkind, Jname, Jnode, Jok, Jesc, Jnum, Jerr, TGT, clock, nTaintOK, nUntaintOK, getSeen, nGet, nKFail, LNb, LNo, LNl, LNby, LNok, LPb, LPo, LPl, nScans, lastMaxAge, lastStarve, nBuildFail, c.cloudProvider
 //@   modifies mapvals(c.nodeGroups), allof("[]string")
 //@   ensures err == nil ==> ctlInv(c)
 //@   ensures [C12,C20] err != nil && nBuildFail == old(nBuildFail) ==> isNotInGroup(err) || isPlainErr(err)
@@ -695,6 +707,7 @@ package controller
 // largest free slot, and the group is below max_nodes.
 //@ func (*Controller).isScaleOnStarve(c, nodeGroup, podRequests, nodeCapacity, untaintedNodes) (r)
 //@   requires nodeGroup != nil
+//@   sets lastStarve = r
 //@   ensures [C06] r <==> (nodeGroup.Opts.ScaleOnStarve && ((!(podRequests.LargestPendingCPU.MilliCPU == 0 && podRequests.LargestPendingCPU.Memory == 0) && podRequests.LargestPendingCPU.MilliCPU > nodeCapacity.LargestAvailableCPU.MilliCPU) || (!(podRequests.LargestPendingMemory.MilliCPU == 0 && podRequests.LargestPendingMemory.Memory == 0) && podRequests.LargestPendingMemory.Memory > nodeCapacity.LargestAvailableMemory.Memory)) && len(untaintedNodes) < nodeGroup.Opts.MaxNodes)
 
 // ---------------------------------------------------------------- node_group.go: which filters a group's listers are built from (C12, C14)
@@ -757,10 +770,10 @@ package controller
 // When the ticker fires is not modelled (the select is a free choice of a ready branch).
 //@ func (*Controller).RunForever(c, runImmediately) (err)
 //@   requires ctlInv(c)
-//@   modifies Jlen, Jkind, Jname, Jnode, Jok, Jesc, Jnum, Jerr, TGT, clock, nTaintOK, nUntaintOK, getSeen, nGet, nKFail, LNb, LNo, LNl, LNby, LNok, LPb, LPo, LPl, nScans, nBuildFail, c.cloudProvider
+//@   modifies Jlen, Jkind, Jname, Jnode, Jok, Jesc, Jnum, Jerr, TGT, clock, nTaintOK, nUntaintOK, getSeen, nGet, nKFail, LNb, LNo, LNl, LNby, LNok, LPb, LPo, LPl, nScans, lastMaxAge, lastStarve, nBuildFail, c.cloudProvider
 //@   modifies mapvals(c.nodeGroups), allof("[]string")
 //@   ensures [C20] err != nil
 //@ loop #0
-//@   modifies Jlen, Jkind, Jname, Jnode, Jok, Jesc, Jnum, Jerr, TGT, clock, nTaintOK, nUntaintOK, getSeen, nGet, nKFail, LNb, LNo, LNl, LNby, LNok, LPb, LPo, LPl, nScans, nBuildFail, c.cloudProvider
+//@   modifies Jlen, Jkind, Jname, Jnode, Jok, Jesc, Jnum, Jerr, TGT, clock, nTaintOK, nUntaintOK, getSeen, nGet, nKFail, LNb, LNo, LNl, LNby, LNok, LPb, LPo, LPl, nScans, lastMaxAge, lastStarve, nBuildFail, c.cloudProvider
 //@   modifies mapvals(c.nodeGroups), allof("[]string")
 //@   invariant ctlInv(c)
